@@ -52,6 +52,9 @@ def crash_key_of(text):
         if "/registry/src/" in loc:
             loc = loc.split("/registry/src/")[1].split("/", 1)[1]
         msg = m.group(2)
+        # drop quoted payloads (type dumps) and a leading `<location> #<expr> : ` prefix
+        msg = re.sub(r"`[^`]*`", "`_`", msg)
+        msg = re.sub(r"^[\w:#<>.]+ #\d+ : ", "", msg)
         # long type dumps: keep the leading sentence
         msg = re.split(r"[:{(]", msg, 1)[0] if len(msg) > 80 else msg
         return f"crash:{loc}:{normalise_msg(msg)}"
